@@ -88,6 +88,10 @@ def run(ck):
     ck.rule("R5", "an EXCEPT_CODE_AUTOMOD handler drops the modified translations and clears the flag", floor=3)
     ck.rule("R7", "the recorded write list is cleared only by code that has consumed it (get_memory_write) on every path to the reset", floor=1)
     ck.rule("R6", "del_block_in_range removes translation and block entry of every overlapping block; ranges rebuilt", floor=6)
+    # the re-check of R3 is emitted only for instructions whose attributes say they access memory: those attributes must
+    # cover every block of the instruction (rules shared with C49-R4)
+    from rules.c49 import _attr_rules
+    _attr_rules(ck, ck.repo.mod("miasm/jitter/codegen.py"), RID="R8", floor=7)
 
     # ------------------------------------------------------------------ R1
     tu = cast.load(ck.repo, VMPY)
